@@ -284,6 +284,23 @@ func init() {
 				}
 				ops = append(ops, OpSpec{Op: "connect"}, OpSpec{Op: "sub", A: 7}, OpSpec{Op: "connect"})
 				sc.Ops = ops
+			} else if sc.Sub != "connectable" && clients == 1 && g.Bool(0.2) {
+				// Share over a cold source that plays its whole script synchronously inside the first Subscribe
+				// (it has terminated before Share gets to look at anything again)
+				sc.SetInt("syncsrc", 1)
+				end := Step{K: "C"}
+				if g.Bool(0.4) {
+					end = Step{K: "E", V: 2}
+				}
+				sc.Sources = []SrcSpec{{Mode: "sync", Script: []Step{{K: "N", V: 101}, {K: "N", V: 102}, end}}}
+				var ops []OpSpec
+				for _, op := range sc.Ops {
+					if !strings.HasPrefix(op.Op, "src") && op.Op != "subq" {
+						ops = append(ops, op)
+					}
+				}
+				ops = append(ops, OpSpec{Op: "sub", A: 7}, OpSpec{Op: "unsub", A: 7}, OpSpec{Op: "sub", A: 9})
+				sc.Ops = ops
 			}
 			return sc
 		}
@@ -485,7 +502,7 @@ func runC11(e *Env) {
 			}
 			upBefore := m.upSubs
 			want := m.step(op)
-			if sc.Int("syncsrc", 0) == 1 && op.Op == "connect" && m.upSubs > upBefore {
+			if sc.Int("syncsrc", 0) == 1 && (op.Op == "connect" || op.Op == "sub") && m.upSubs > upBefore {
 				// the connection was made: the cold source played its script inside Connect
 				for _, st := range sc.Sources[0].Script {
 					switch st.K {
